@@ -606,6 +606,32 @@ fn main() {
         eprintln!("probe result: {r:?}");
         return;
     }
+    if args.len() >= 3 && args[1] == "replay" {
+        // re-run one recorded schedule
+        std::panic::set_hook(Box::new(|_| {}));
+        liquid_core::verif_hooks::install(Some(hook));
+        let text = std::fs::read_to_string(&args[2]).expect("replay file");
+        let j: serde_json::Value = serde_json::from_str(&text).expect("json");
+        let w = &j["witness"];
+        let hs = harnesses();
+        let Some(h) = hs.iter().find(|h| Some(h.name) == w["harness"].as_str()) else {
+            eprintln!("unknown harness in {}", args[2]);
+            std::process::exit(2);
+        };
+        let sched: Vec<usize> = w["schedule"].as_array().map(|a| a.iter().filter_map(|x| x.as_u64().map(|x| x as usize)).collect()).unwrap_or_default();
+        println!("recorded : {}", j["detail"].as_str().unwrap_or("?"));
+        match run(sched.clone(), &h.plan) {
+            Ok(x) => {
+                println!("schedule : {sched:?}");
+                println!("trace    : {:?}", x.trace.iter().map(|(t, l)| format!("T{t}:{l}")).collect::<Vec<_>>());
+                println!("results  : {:?}", x.results);
+                println!("baseline : {:?}", baseline(&h.plan));
+                println!("deadlock : {}", x.deadlock);
+            }
+            Err(RunErr::Stuck(m)) | Err(RunErr::Divergence(m)) => println!("machinery: {m}"),
+        }
+        return;
+    }
     if args.len() >= 4 && args[1] == "worker" {
         std::panic::set_hook(Box::new(|_| {}));
         liquid_core::verif_hooks::install(Some(hook));
